@@ -677,8 +677,16 @@ def _block(G, M, w):
     }
     return th
 
+def _read_into(w):
+    n = w // 8
+    return (f"∀ (src : List U8) (dst : Array (BitVec {w})), {n} * dst.size ≤ src.length → "
+            f"Ext.RandCore.read_u{w}_into src dst = (readU{w}s src dst.size).toArray", ["C09", "C14"],
+            f"intro src dst h\n  unfold Ext.RandCore.read_u{w}_into readU{w}s\n  rw [Nat.min_eq_left (by omega)]\n"
+            f"  exact foldl_wr_range (le{w}At src) dst")
+
 RC_THEOREMS = {
     "RandCore": {
+        "read_u32_into": _read_into(32), "read_u64_into": _read_into(64),
         "next_u64_via_u32": ("∀ {σ : Type} (g : Direct σ) (s : σ), Ext.RandCore.next_u64_via_u32 g s = nextU64ViaU32 g.nextU32 s", ["C05"],
                              "intros; rfl"),
         "fill_bytes_via_next": ("∀ {σ : Type} (g : Direct σ) (fuel : Nat) (s : σ) (dest : List U8), dest.length / 8 ≤ fuel → "
